@@ -560,7 +560,14 @@ func runSession(s spec) *transcript {
 		return t
 	}
 	// closing handshake
-	wsutil.WriteClientMessage(conn, ws.OpClose, ws.NewCloseFrameBody(ws.StatusNormalClosure, reasonOf(s)))
+	if s.id%4 == 0 {
+		// a reason-less close with a spec-defined code, built with the frame constructors and masked IN PLACE
+		// (legal: the body belongs to the caller), as a client without the wsutil helpers does
+		code := []ws.StatusCode{ws.StatusNormalClosure, ws.StatusGoingAway, ws.StatusPolicyViolation, ws.StatusInternalServerError}[int(s.seed)%4]
+		ws.WriteFrame(conn, ws.MaskFrameInPlace(ws.NewCloseFrame(ws.NewCloseFrameBody(code, ""))))
+	} else {
+		wsutil.WriteClientMessage(conn, ws.OpClose, ws.NewCloseFrameBody(ws.StatusNormalClosure, reasonOf(s)))
+	}
 	f, err := ws.ReadFrame(conn)
 	for err == nil && f.Header.OpCode != ws.OpClose {
 		f, err = ws.ReadFrame(conn)
@@ -790,7 +797,7 @@ func main() {
 	mon.Main(&mon.Spec{
 		Property: "C19",
 		Level:    "exploration",
-		Rule: "built with -race and the pool shim (poison-on-put, deterministic LIFO reuse, runtime.Gosched injected inside every pool Get/Put - the only place sessions meet - and goroutine tracking). A case = N in {4,16,64} sessions, each a client goroutine + server goroutine over a buffered in-memory duplex, roles {ws.Upgrader, ws.HTTPUpgrader behind net/http} x {ws.Dialer, wsutil.DebugDialer, background/non-background contexts}, two thirds of the ws.Upgrader sessions over wss:// with the library's DEFAULT TLS client configuration (4 host names, per-host certificates of a private CA, SNI recorded) and one session in five with an injected connection write fault half way, traffic {Read*Data/Write*Message helpers and header + CipherWriter streaming, Reader + GetWriter/PutWriter echo, compressed frames via per-session wsflate.Helper values of three different codec configurations (the compressed bytes are part of the transcript), compressed Writer/Reader stack with MessageState}, 3-6 messages of 0 B..100 KiB across the pool classes with pings carrying payloads and a closing handshake; GOMAXPROCS in {1,2,4,16}; 4 session mixes. " +
+		Rule: "built with -race and the pool shim (poison-on-put, deterministic LIFO reuse, runtime.Gosched injected inside every pool Get/Put - the only place sessions meet - and goroutine tracking). A case = N in {4,16,64} sessions, each a client goroutine + server goroutine over a buffered in-memory duplex, roles {ws.Upgrader, ws.HTTPUpgrader behind net/http} x {ws.Dialer, wsutil.DebugDialer, background/non-background contexts}, two thirds of the ws.Upgrader sessions over wss:// with the library's DEFAULT TLS client configuration (4 host names, per-host certificates of a private CA, SNI recorded) and one session in five with an injected connection write fault half way, traffic {Read*Data/Write*Message helpers and header + CipherWriter streaming, Reader + GetWriter/PutWriter echo, compressed frames via per-session wsflate.Helper values of three different codec configurations (the compressed bytes are part of the transcript), compressed Writer/Reader stack with MessageState}, 3-6 messages of 0 B..100 KiB across the pool classes with pings carrying payloads and a closing handshake (with a long reason, or reason-less with a spec-defined code built by the frame constructors and masked in place); GOMAXPROCS in {1,2,4,16}; 4 session mixes. " +
 			"Oracle: each session's transcript (handshake results, every echo verified, control events, close codes, errors, on both sides) must equal the transcript of the same seeded session run alone; no shim alarm; shared package-level values unchanged; the Go race detector reports counted by the supervisor (GORACE log_path, halt_on_error=0) over repeated rounds. distinct = (N, GOMAXPROCS, mix).",
 		Assumptions: []string{"race reports vary run to run: the whole workload is repeated (rounds) with different seeds", "a clean race-detector run is not freedom from races on unexplored interleavings: the evidence reports the cross-goroutine buffer hand-offs actually observed"},
 		RaceLogs:    true,
